@@ -60,6 +60,7 @@ Dangling == {"+", "-", "*", "and", "or", "=", "!=", "<", "|", "/", "//", "div", 
 Leading == {"=", "!=", "<", "|", ",", ")", "]", "div 2 div"}
 Junk == {"#", "%", "^", "{", "}", "~", "`", ";", "\\", "?", "1a", "'", "\"", "!", "&"}
 DoubleOps == {"=", "!=", "<", "|", "div", "mod", "and", "or", ","}
+UndefVars == {"$x", "$x + 1", "count($x)", "//item[@n = $x]", "$p:x"}
 NParamExprs == 14
 NXPathOdd == 8
 
@@ -101,6 +102,7 @@ Cases ==
    \cup {Case("nonExpression", "xpath", k, "", 0, 0, "") : k \in {"badAxis", "unknownFunction"}}
    \cup {Case("nonExpression", "xpath", "empty", "", 0, 0, ToString(k)) : k \in 0..12}
    \cup {Case("xpathIllegalChar", "xpath", "", "", i, 0, "") : i \in 1..NXPathOdd}
+   \cup {Case("undefinedVariable", r, "", "", 0, 0, v) : r \in {"param", "xpath"}, v \in UndefVars}
 
 (* every case has a class the protocol knows, and every class except the fuzzer's has cases *)
 CasesSound == /\ \A c \in Cases : c.cls \in Classes
